@@ -431,11 +431,32 @@ func decodeType(fold []byte, state *stateDecode) (*decoder, []byte, error) {
 	return nil, nil, fmt.Errorf("no decoder for type %d", fold[0])
 }
 
-// allocAllowed reports whether the memory for n values of the type is in proportion to the
-// data they are going to be decoded from: every value takes at least one byte of the packet,
-// and no type takes more than 24 bytes in memory per byte on the wire (a nil slice)
+// allocAllowed reports whether n values of the type may be allocated for the data they are
+// going to be decoded from: the number of elements the peer has declared (the count n and the
+// lengths of the arrays in the unfolded type) can not exceed the number of bytes that are left,
+// since every element takes at least one of them. The size of an element in memory is not a
+// concern: apart from those lengths the types are the types of this program.
 func allocAllowed(t reflect.Type, n int, packet []byte) bool {
-	return uint64(n)*uint64(t.Size()) <= 32*uint64(len(packet))
+	units := wireUnits(t)
+	if n > 0 && units > uint64(len(packet))/uint64(n) {
+		return false
+	}
+	return true
+}
+
+// wireUnits returns the least number of bytes a value of the type takes on the wire as far
+// as it follows from the array lengths declared by the peer (the arrays made while unfolding
+// a type are unnamed); any other type counts as one
+func wireUnits(t reflect.Type) uint64 {
+	if t.Kind() != reflect.Array || t.Name() != "" {
+		return 1
+	}
+	n := uint64(t.Len())
+	u := wireUnits(t.Elem())
+	if n != 0 && u > math.MaxUint64/n {
+		return math.MaxUint64
+	}
+	return n * u
 }
 
 func decodePID(value *reflect.Value, packet []byte, state *stateDecode) (*reflect.Value, []byte, error) {
